@@ -422,6 +422,7 @@ def code_to_spec(chk, tier, runs):
         r["combos"] = cs
         rp = {"kind": "run", "sc": _sc_json(r["sc"]), "job": r["job"], "which": r["which"]}
         chk.evaluated(("run", r["sc"].name, r["which"], json.dumps(r["job"], sort_keys=True)))
+        chk.sample({"scenario": r["sc"].name, "run": r["which"], "job": r["job"], "steps_validated": n})
         for key, what in (("harness:threads-created", r["threads"]), ("status-file:content-not-a-written-version", r["foreign"]),
                           ("status-monitor:action-raised", r["tick_errors"]), ("rx-item-raised", r["item_errors"])):
             if what:
